@@ -309,6 +309,8 @@ Fixpoint undels_eqb (a b : list Undel) : bool :=
   | _, _ => false
   end.
 
+Definition vinfo_or_empty (s : State) (v : Z) : ValInfo :=
+  match kget (valinfos s) [v] with Some vi => vi | None => empty_valinfo end.
 Definition check_C07 (pre : State) (o : Op) (c : Z) (post : State) : list Z :=
   match o with
   | OHookSlash v f =>
@@ -321,6 +323,51 @@ Definition check_C07 (pre : State) (o : Op) (c : Z) (post : State) : list Z :=
         end) (undelq pre))
       (* the fee collector receives exactly what the entries lost *)
       ++ clause 2 (forallb (fun d => fee post d - fee pre d =? unbonding_sum pre d - unbonding_sum post d) (denoms_of pre))
+      (* redelegation half: the destination position of each pending redelegation out of v loses
+         shares worth floor(f x the amount redelegated FROM V) tokens, capped at what it holds.
+         Evaluated per destination position, in tokens at the destination's price after the bonded
+         part, when at most one index key of v points at that (validator, denom) (several removals
+         from one validator move its price between them).  The amounts redelegated from v are read
+         off the time queue, which keeps one entry per source.  Codes: 3 too much / 4 too little
+         removed; 31: too much, and the record of the position merges redelegations out of several
+         sources (one record per (delegator, denom, destination, time): F-C07-2). *)
+      ++ flat_map (fun kd =>
+           match fst kd with
+           | [del; w; d] =>
+             match kget (assets post) [d] with
+             | None => []
+             | Some a =>
+               let hits := filter (fun ki => match fst ki with
+                                            | [v'; ct; d'; w'; _] => (v' =? v) && (d' =? d) && (w' =? w) && (now pre <=? ct)
+                                            | _ => false end) (redelidx pre) in
+               if negb (Nat.leb (length hits) 1) then []
+               else
+                 let sh_pre := d_shares (snd kd) in
+                 let sh_post := match kget (delegations post) (fst kd) with Some x => d_shares x | None => 0 end in
+                 let removed := sh_pre - sh_post in
+                 let removed_w := fold_right (fun kd' acc => match fst kd' with
+                                    | [_; w'; d'] => if (w' =? w) && (d' =? d)
+                                                     then d_shares (snd kd') - (match kget (delegations post) (fst kd') with Some x => d_shares x | None => 0 end) + acc
+                                                     else acc
+                                    | _ => acc end) 0 (delegations pre) in
+                 let V := val_tokens a (vinfo_or_empty post w) in
+                 let D := dshares_of post w d + removed_w in
+                 let tok_of (sh : Z) := if D =? 0 then 0 else Z.quot (sh * V) (D * PREC) in
+                 let entries := flat_map (fun kq => match fst kq with
+                                                    | [ct] => if now pre <=? ct
+                                                              then filter (fun r => (r_del r =? del) && (r_dst r =? w) && (r_denom r =? d)) (snd kq)
+                                                              else []
+                                                    | _ => [] end) (redelq pre) in
+                 let expected := fold_right (fun r acc => (if r_src r =? v then dtrunc (dmul_int f (r_amount r)) else 0) + acc) 0 entries in
+                 let merged := existsb (fun r => negb (r_src r =? v)) entries in
+                 let want := Z.min expected (tok_of sh_pre) in
+                 (* base units, one per entry, and the 18-digit relative error against the asset's total (as in C04) *)
+                 let tol := 3 + Z.of_nat (length entries) + want / 1000000000000 + 8 * (a_tokens a / PREC) in
+                 (if tok_of removed <=? want + tol then [] else if merged then [31] else [3])
+                 ++ (if want - tol <=? tok_of removed then [] else [4])
+             end
+           | _ => []
+           end) (delegations pre)
     else []
   | _ => []
   end.
@@ -330,8 +377,6 @@ Definition check_C07 (pre : State) (o : Op) (c : Z) (post : State) : list Z :=
    validator's record and from the asset's total alike, and touches nobody else's validator
    shares; a position is worth  T * (s_w / S) * (shares / delegator shares of w):  with S' = S - f*s_v
    a position on v is scaled by (1-f)*g and everybody else by g = S / S'  (Proofs/BondedSlash.v) *)
-Definition vinfo_or_empty (s : State) (v : Z) : ValInfo :=
-  match kget (valinfos s) [v] with Some vi => vi | None => empty_valinfo end.
 Definition vshares_of (s : State) (w d : Z) : Z := camount (vi_vshares (vinfo_or_empty s w)) d.
 (* the slash of pending redelegations walks the per-source index *)
 Definition has_redel_from (s : State) (v : Z) : bool :=
